@@ -436,7 +436,7 @@ fn stage_version_grid(ctx: &mut Ctx, env: &mut Env, idx: &mut u64) {
 }
 
 fn stage_size_grid(ctx: &mut Ctx, env: &mut Env, idx: &mut u64) {
-    let sizes = [0usize, 1, 2, 3, 17, 98, 99, 100, 101, 150];
+    let sizes = [0usize, 1, 2, 3, 17, 98, 99, 100, 101, 150, 255, 256, 257, 300];
     let reps = ctx.scale(1, 6, 1);
     for rep in 0..reps {
         for &nc in &sizes {
@@ -461,7 +461,7 @@ fn stage_size_grid(ctx: &mut Ctx, env: &mut Env, idx: &mut u64) {
             }
         }
     }
-    ctx.exhaustive("cipher count x extension count in {0,1,2,3,17,98,99,100,101,150}^2 x GREASE in ciphers {0,2} x GREASE extensions {0,2}");
+    ctx.exhaustive("cipher count x extension count in {0,1,2,3,17,98,99,100,101,150,255,256,257,300}^2 x GREASE in ciphers {0,2} x GREASE extensions {0,2}");
 }
 
 fn stage_random(ctx: &mut Ctx, env: &mut Env) {
@@ -983,6 +983,76 @@ fn stage_unjudged(ctx: &mut Ctx, env: &mut Env, idx: &mut u64) {
     ctx.class_n("unjudged-cases", cases.len() as u64);
 }
 
+/// Runs of hellos that differ from their predecessor in one list only (signature algorithms,
+/// supported groups, cipher order, one cipher), judged one after the other on the same thread and
+/// the same analyzers: every fingerprint must be that of its own hello, whatever was fingerprinted
+/// just before.
+fn stage_neighbours(ctx: &mut Ctx, env: &mut Env) {
+    let n = ctx.scale(4_000, 200_000, 3) / ctx.nshards as u64 + 1;
+    let mut r = ctx.rng(404);
+    for _ in 0..n {
+        let (nc, ne) = (2 + r.usize(12), 6 + r.usize(8));
+        let mut h = sized_hello(&mut r, nc, ne, false);
+        if !h.exts().iter().any(|e| matches!(e, Ext::SigAlgs(_))) {
+            let k = 2 + r.usize(4);
+            let s = tlsgen::random_sigalgs(&mut r, k);
+            h.exts_mut().push(Ext::SigAlgs(s));
+        }
+        if !h.encodable() {
+            continue;
+        }
+        check(ctx, env, &h, "neighbours/base", Paths::All);
+        for step in 0..6 {
+            let what = match step % 6 {
+                0 | 1 | 2 => {
+                    // same version, SNI, ALPN, ciphers and extension types: other signature algorithms
+                    for e in h.exts_mut().iter_mut() {
+                        if let Ext::SigAlgs(v) = e {
+                            if step == 0 && v.len() > 1 {
+                                r.shuffle(v);
+                            } else if step == 1 {
+                                let k = v.len().max(1);
+                                *v = tlsgen::random_sigalgs(&mut r, k);
+                            } else {
+                                let k = 1 + r.usize(6);
+                                *v = tlsgen::random_sigalgs(&mut r, k);
+                            }
+                        }
+                    }
+                    "sigalgs"
+                }
+                3 => {
+                    for e in h.exts_mut().iter_mut() {
+                        if let Ext::Groups(v) = e {
+                            v.reverse();
+                            v.push(0x0019);
+                        }
+                    }
+                    "groups"
+                }
+                4 => {
+                    if h.ciphers.len() > 1 {
+                        r.shuffle(&mut h.ciphers);
+                    }
+                    "cipher-order"
+                }
+                _ => {
+                    let last = h.ciphers.len() - 1;
+                    h.ciphers[last] = h.ciphers[last].wrapping_add(2);
+                    if tlsgen::is_grease(h.ciphers[last]) {
+                        h.ciphers[last] = 0x1301;
+                    }
+                    "one-cipher"
+                }
+            };
+            if !h.encodable() {
+                break;
+            }
+            check(ctx, env, &h, &format!("neighbours/{what}"), Paths::All);
+        }
+    }
+}
+
 pub fn run(ctx: &mut Ctx) {
     tlsgen::self_check();
     let mut env = Env::new();
@@ -1004,6 +1074,7 @@ pub fn run(ctx: &mut Ctx) {
     ctx.stage("cpu_ms_after_permutations", json!((ctx.elapsed() * 1000.0) as u64));
     stage_grease(ctx, &mut env, &mut idx);
     ctx.stage("cpu_ms_after_grease", json!((ctx.elapsed() * 1000.0) as u64));
+    stage_neighbours(ctx, &mut env);
     stage_random(ctx, &mut env);
     ctx.stage("cpu_ms_total", json!((ctx.elapsed() * 1000.0) as u64));
 }
